@@ -450,6 +450,7 @@ type Contract struct {
 	Used     bool
 	Modifies []string // whole components havoc'd (raw names) for trusted contracts
 	Implements string // key of the interface-method contract this function refines
+	Reveal     []string // opaque definitions unfolded while verifying this function
 	ImplTags   []string
 }
 
@@ -461,6 +462,7 @@ type SpecDef struct {
 	Body   *SExpr
 	Pkg    string
 	File   string
+	Opaque bool
 }
 
 type GhostDecl struct {
@@ -692,6 +694,38 @@ func (cs *ContractSet) loadContractFile(path string, pkgPath string, trusted boo
 			cs.ByKey[c.Key] = c
 			cur = c
 			lastClause, lastDef, pendingSrc = nil, nil, nil
+		case "opaque":
+			// opaque pred name(params) = body : hidden unless the contract says `reveal name`
+			if len(fields) > 1 && (fields[1] == "pred" || fields[1] == "ghostfn") {
+				rest2 := strings.TrimSpace(strings.TrimPrefix(rest, fields[1]))
+				i := strings.Index(rest2, "(")
+				j := matchParen(rest2, i)
+				eq := -1
+				if i >= 0 && j >= 0 {
+					eq = strings.Index(rest2[j:], "=")
+				}
+				if i < 0 || j < 0 || eq < 0 {
+					cs.Errors = append(cs.Errors, where+": malformed definition")
+					continue
+				}
+				d := &SpecDef{Kind: fields[1], Name: strings.TrimSpace(rest2[:i]), Params: paramVars(rest2[i+1 : j]), Pkg: pkgPath, File: path, Opaque: true}
+				d.Ret = strings.TrimSpace(rest2[j+1 : j+eq])
+				body := strings.TrimSpace(rest2[j+eq+1:])
+				src := body
+				pendingSrc = &src
+				lastDef, lastClause = d, nil
+				cs.Defs[d.Name] = d
+				cur = nil
+				if body != "" {
+					if e, err := parseSpec(body); err == nil {
+						d.Body = e
+					}
+				}
+			}
+		case "reveal":
+			if cur != nil {
+				cur.Reveal = append(cur.Reveal, strings.Fields(strings.ReplaceAll(rest, ",", " "))...)
+			}
 		case "pred", "ghostfn":
 			// pred name(params) = body
 			i := strings.Index(rest, "(")
